@@ -403,6 +403,82 @@ func (g *generator) all(run func(*c07Case)) {
 			run(c)
 		}
 	}
+	// F13: the SHAPE of the io.Reader, for signing and verifying independently; the descriptor must
+	// be that of the complete content (digest, size) whatever the shape
+	shapes := []string{"", "plain", "dataerr", "gzip", "onebyte", "half", "zeronil"}
+	chunkSizes := []int{0, 1, 32767, 32768, 32769, 65535, 65536, 65537}
+	rot := 0
+	for _, ss := range shapes {
+		for _, vs := range shapes {
+			szs := []int{chunkSizes[rot%len(chunkSizes)]}
+			rot += 3
+			if thorough {
+				szs = chunkSizes
+			}
+			for _, sz := range szs {
+				c := g.base("reader-shape", Pick(g.rng, []string{"EC-256", "EC-384", "EC-521"}), Pick(g.rng, formats), "blob", Pick(g.rng, signerKinds))
+				c.Blob.Size, c.Blob.Reader = sz, ss
+				vb := *c.Blob
+				vb.MT, vb.Reader = c.VBlob.MT, vs
+				c.VBlob = &vb
+				run(c)
+			}
+		}
+	}
+	for _, side := range []string{"sign", "verify"} {
+		for _, shape := range []string{"fail", "fail-data"} {
+			for _, sz := range []int{1, 32769, 65536} {
+				for _, at := range []int{0, sz / 2, sz - 1} {
+					if shape == "fail-data" && at == 0 {
+						continue
+					}
+					c := g.base("reader-fails", Pick(g.rng, []string{"EC-256", "EC-384"}), Pick(g.rng, formats), "blob", Pick(g.rng, signerKinds))
+					c.Blob.Size = sz
+					vb := *c.Blob
+					vb.MT = c.VBlob.MT
+					c.VBlob = &vb
+					if side == "sign" {
+						c.Blob.Reader, c.Blob.FailAt = shape, at
+					} else {
+						c.VBlob.Reader, c.VBlob.FailAt = shape, at
+					}
+					run(c)
+				}
+			}
+		}
+	}
+	// F14: a changed blob / descriptor must not verify even when the demanded metadata matches
+	for i := 0; i < n(2, 30); i++ {
+		for _, kind := range []string{"blob", "oci"} {
+			for _, vm := range []string{"one", "all"} {
+				c := g.base("tamper-with-matching-metadata", pickKey(), Pick(g.rng, formats), kind, Pick(g.rng, signerKinds))
+				c.Meta = map[string]string{"releasedBy": "me", "n": fmt.Sprint(g.rng.Intn(100))}
+				c.VMeta = map[string]string{"releasedBy": "me"}
+				if vm == "all" {
+					c.VMeta["n"] = c.Meta["n"]
+				}
+				if kind == "blob" {
+					if c.VBlob.Size == 0 {
+						c.VBlob.Extra = 1
+					} else if g.rng.Bool() {
+						c.VBlob.Flip = true
+					} else {
+						c.VBlob.Extra = 1
+					}
+				} else {
+					switch g.rng.Intn(3) {
+					case 0:
+						c.VOCI.Digest = g.digestOf(digest.SHA256)
+					case 1:
+						c.VOCI.Size++
+					default:
+						c.VOCI.MT += "x"
+					}
+				}
+				run(c)
+			}
+		}
+	}
 	// F9: verification with options LESS specific than what was signed (no content media type,
 	// no / part of the metadata): what comes back must still be what was SIGNED
 	for i := 0; i < n(1, 12); i++ {
